@@ -4,7 +4,8 @@ family in coq/theories/C12/Model.v).  Top-level module so that worker processes 
 Every observable is an integer tag:
   features of agent a   = [eid, base + ord, 16*t + a, echo]       (echo = code of the action a received)
   reward of agent a     = 100*t + 10*a + echo
-  info of agent a       = {"tag": 1000*ord + 16*t + a}  (+ {"first": 1} in the info returned by reset)
+  info of agent a       = {"tag": 1000*ord + 16*t + a}  (+ {"first": 1} in the info returned by reset, + {"opt": o} when
+                        reset was called with options={"opt": o}; rich_info adds values of every kind _add_info handles)
 Episode number `ord` (1, 2, ...) lasts lens[ord % len(lens)] steps; at its last step every live agent is
 terminated (mode "term"), truncated (mode "trunc") or one of the two by parity of a + ord (mode "mixed").
 Agent a with leave[a] = k is terminated at step k of every episode and is absent from then on.
@@ -21,7 +22,7 @@ from gymnasium import spaces
 from pettingzoo import ParallelEnv
 
 OBS_KINDS = ("vector", "image", "discrete", "dict", "tuple")
-ACT_KINDS = ("discrete", "box1", "box2")
+ACT_KINDS = ("discrete", "box1", "box2", "md2", "dlist")   # dlist: Discrete, handed over as a Python list
 
 # An observation space is described by {"str": "plain"|"dict"|"tuple", "members": [{"leaf": "box"|"discrete"|
 # "multidiscrete", "shape": [...], "dtype": numpy dtype name}]}; the five names above are presets.
@@ -110,8 +111,10 @@ def pack(kind, members):
 
 
 def act_space(akind):
-    if akind == "discrete":
+    if akind in ("discrete", "dlist"):
         return spaces.Discrete(5)
+    if akind == "md2":
+        return spaces.MultiDiscrete([2, 3])
     if akind == "box1":
         return spaces.Box(0, 4, (1,), np.float32)
     if akind == "box2":
@@ -121,8 +124,10 @@ def act_space(akind):
 
 def act_value(akind, code):
     """action code (0..4) -> an element of act_space(akind)"""
-    if akind == "discrete":
+    if akind in ("discrete", "dlist"):
         return int(code)
+    if akind == "md2":
+        return np.array([code % 2, code // 2], dtype=np.int64)
     if akind == "box1":
         return np.array([code], dtype=np.float32)
     return np.array([code % 2, code // 2], dtype=np.float32)
@@ -130,7 +135,7 @@ def act_value(akind, code):
 
 def act_code(akind, a):
     """what the environment echoes: inverse of act_value (on whatever object the worker hands over)"""
-    if akind == "discrete":
+    if akind in ("discrete", "dlist"):
         return int(a)
     if akind == "box1":
         return int(round(float(np.asarray(a).reshape(-1)[0])))
@@ -143,7 +148,7 @@ class ScriptedEnv(ParallelEnv):
     render_mode = None
 
     def __init__(self, eid=0, nagents=2, lens=(3,), mode="term", leave=None, kind="vector", akind="discrete",
-                 unaligned=False, reversed_out=False):
+                 unaligned=False, reversed_out=False, rich_info=False):
         self.eid = int(eid)
         self.nagents = int(nagents)
         self.lens = [int(x) for x in lens]
@@ -153,6 +158,8 @@ class ScriptedEnv(ParallelEnv):
         self.akind = akind
         self.unaligned = bool(unaligned)
         self.reversed_out = bool(reversed_out)   # every returned dict lists the agents in reverse order
+        self.rich_info = bool(rich_info)         # infos also carry float / bool / None / array / str / nested values
+        self.marker = 0                          # plain attribute for get_attr / set_attr
         self.possible_agents = [f"agent_{i}" for i in range(self.nagents)]
         self.agents = []
         self.base = 0
@@ -173,11 +180,29 @@ class ScriptedEnv(ParallelEnv):
     def _obs(self, a, echo):
         return pack(self.kind, encode(self.kind, [self.eid, self.base + self.ord, 16 * self.t + a, echo]))
 
-    def _info(self, a, first):
+    def _info(self, a, first, options=None):
         d = {"tag": 1000 * self.ord + 16 * self.t + a}
         if first:
             d["first"] = 1
+            if options is not None and "opt" in options:
+                d["opt"] = int(options["opt"])          # reset(options=...) is echoed
+        if self.rich_info:
+            d["f"] = self.t + 0.5 + a
+            d["b"] = bool((self.t + a) % 2)
+            d["np"] = np.float32(self.ord + 0.25)
+            d["none"] = None
+            d["arr"] = np.array([self.ord, self.t, a], dtype=np.int32)
+            d["s"] = f"e{self.eid}-t{self.t}"
+            d["nest"] = {"k": 7 * self.ord + a, "deep": {"z": self.t}}
+            if (self.t + self.eid) % 2 == 0:
+                d["sometimes"] = self.eid * 100 + self.t    # present in some environments / steps only
         return d
+
+    def render(self):
+        return ("frame", self.eid, self.ord, self.t)
+
+    def echo(self, x, k=0):
+        return (self.eid, x, k)
 
     def reset(self, seed=None, options=None):
         if seed is not None:
@@ -187,7 +212,7 @@ class ScriptedEnv(ParallelEnv):
         self.t = 0
         self.agents = self.possible_agents[:]
         obs = {ag: self._obs(self._idx(ag), 0) for ag in self.agents}
-        info = {ag: self._info(self._idx(ag), True) for ag in self.agents}
+        info = {ag: self._info(self._idx(ag), True, options) for ag in self.agents}
         if self.reversed_out:
             obs, info = (dict(reversed(list(d.items()))) for d in (obs, info))
         return obs, info
